@@ -33,6 +33,14 @@ INFO = {
             'model-based stateful property testing (std::set reference model)'),
     'C11': ('exploration', 'The SmallSet histories with erase(pos)/erase(range)/erase-while-iterating weighted up; after every operation forward and reverse walks must visit exactly the model elements once, returned iterators equal end() iff they designate nothing, the standard erase loop must terminate having visited every element once.', '3/C11',
             'stateful property testing of the iterator contract against a reference model'),
+    'C09': ('fault_enumeration', 'For every scenario of a complete small grid (25 operations x sizes x positions x counts x range kinds x spare/tight capacity x inline/heap) and for rapidcheck-generated larger scenarios, a dry run counts the fault points inside the call and the scenario is re-run once per fault index k with that element construction/copy/assignment or allocator request throwing; basic guarantee always, strong guarantee for the documented operations. Single faults, complete over k.', '3/C09',
+            'fault injection enumerated over every throw index, ledger + snapshot oracles'),
+    'C12': ('exploration', 'Complete enumeration of contents (all subsets of k keys) x hint positions x values x call forms for 11 comparator/vector/element configurations, metamorphic oracle hinted == plain insertion == std::set; plus hinted insertions inside generated FlatSet histories.', '3/C12',
+            'bounded-exhaustive enumeration with a metamorphic oracle'),
+    'C18': ('exploration', 'Counter-based check of the stated bounds over a grid of n, start states and configurations: capacity changes, relocated elements, allocator requests, growth factor, reserve/shrink_to_fit post-conditions.', '3/C18',
+            'generated grid with counting oracles (reallocations, relocations, allocator requests)'),
+    'C19': ('exploration', 'Comparator-call counting for every key rank of FlatSets of every size up to 300 and around powers of two, every correct hint, and SmallSet inline lookups for every fill.', '3/C19',
+            'generated grid with a comparator-call counting oracle'),
 }
 NOTE = 'Trusted base: libstdc++ reference containers, the harness (harness/*.hpp), g++ 12 sanitizers, rapidcheck. Checks rebuild against /repo/include (content hash) on every run.'
 
